@@ -249,7 +249,12 @@ pub fn full_client_capabilities() -> Value {
 /// then didChange of the root document with the text it already has (a save without an edit),
 /// last = didOpen/didChange of a third document that nothing includes (the server has never seen its path).
 pub fn menu_len() -> usize {
-    4 + REQUESTS.len()
+    5 + REQUESTS.len()
+}
+
+/// didClose of the root document (it exists on disk): the last letter of the menu.
+fn is_close(m: usize) -> bool {
+    m == 4 + REQUESTS.len()
 }
 
 fn is_fresh_doc(m: usize) -> bool {
@@ -266,6 +271,7 @@ fn message_name(m: usize) -> &'static str {
         1 => "touch(b)",
         m if is_request(m) => REQUESTS[m - 2],
         m if is_fresh_doc(m) => "touch(c)",
+        m if is_close(m) => "close(a)",
         _ => "resend(a)",
     }
 }
@@ -340,6 +346,10 @@ pub fn execute(scenario: &[usize], prefix: &[usize], dir: &PathBuf) -> Outcome {
                         let n: AnyNotification = serde_json::from_value(json!({ "method": "textDocument/didChange", "params": {
                             "textDocument": { "uri": uri, "version": version }, "contentChanges": [ { "text": text_of_a } ] } }))
                         .unwrap();
+                        let _ = router.notify(n);
+                    } else if is_close(m) {
+                        // the tab of the root document is closed (the file is on disk); a later change of it re-opens nothing
+                        let n: AnyNotification = serde_json::from_value(json!({ "method": "textDocument/didClose", "params": { "textDocument": { "uri": uri } } })).unwrap();
                         let _ = router.notify(n);
                     } else if is_fresh_doc(m) {
                         // a document whose path the server meets for the first time (nothing includes it)
@@ -534,7 +544,7 @@ pub fn execute(scenario: &[usize], prefix: &[usize], dir: &PathBuf) -> Outcome {
     }
     // each open/change that brings a new text or a new root publishes at least once; a resend of the
     // text the document already has is processed once its handler returns (a server may skip the rest)
-    let notifications = 1 + scenario.iter().filter(|&&m| !is_request(m) && (m == 0 || m == 1 || is_fresh_doc(m))).count() as u32;
+    let notifications = 1 + scenario.iter().filter(|&&m| !is_request(m) && !is_close(m) && (m == 0 || m == 1 || is_fresh_doc(m))).count() as u32;
     if published < notifications && out.problem.is_none() {
         out.problem = Some(("notification-not-processed".into(), format!("{published} publications for {notifications} open/change notifications")));
     }
@@ -611,7 +621,7 @@ fn explore_scenario(scenario: &[usize], dir: &PathBuf, prune: bool, ctx: &mut Ct
 
 /// The notification letters of the menu (no requests): change of the root, of a second document, of an unseen third, resend.
 pub fn notification_letters() -> Vec<usize> {
-    (0..menu_len()).filter(|&m| !is_request(m)).collect()
+    (0..menu_len()).filter(|&m| !is_request(m) && !is_close(m)).collect()
 }
 
 /// First pair of publications of one file whose versions decrease, if any.
@@ -727,10 +737,10 @@ impl Engine for C08 {
 
     fn rule(&self, tier: Tier) -> String {
         format!(
-            "scenarios didOpen ; m2 [; m3 [; m4]] with m in {{didChange of the root document (alternating between two texts), didChange of the root document with the text it already has, didOpen/didChange of a second document (the root switches, the old root leaves the workspace), didOpen/didChange of a third document that nothing includes (its path is new to the server), definition, references, hover, documentSymbol, inlayHint, completion, documentLink, foldingRange}}: all {} scenarios; \
+            "scenarios didOpen ; m2 [; m3 [; m4]] with m in {{didChange of the root document (alternating between two texts), didChange of the root document with the text it already has, didOpen/didChange of a second document (the root switches, the old root leaves the workspace), didOpen/didChange of a third document that nothing includes (its path is new to the server), didClose of the root document (which is on disk), definition, references, hover, documentSymbol, inlayHint, completion, documentLink, foldingRange}}: all {} scenarios; \
              for each, EVERY schedule of the schedule points (message start, file-table lock wants, salsa input writes, task start/finish) is executed on the real Server router with real salsa and the real tokio blocking pool, \
              depth-first over all choice sequences{}. states = distinct (parked threads, program counters, lock model) configurations at choice points; transitions = resumptions; non-trivial = schedules with at least one real choice.",
-            tier.pick("12 two-message and 144 three-message", "12 + 144 + 1728 (two-, three- and four-message)"),
+            tier.pick("13 two-message and 169 three-message", "13 + 169 + 2197 (two-, three- and four-message)"),
             tier.pick("", "; four-message scenarios do not re-expand an already expanded state (sound because handlers are straight-line between schedule points)")
         )
     }
